@@ -5,7 +5,10 @@
    straddles one of its locks, and every witness assignment of the alphabet):
      - VerifyAlg = Meaning                       (the walk computes the meaning)
      - for unlock conditions the earliest-match reading equals the
-       declarative "m distinct listed keys in order" reading
+       declarative "m distinct listed keys in order" reading, and the loop
+       (fold) forms of the key walk and of the earliest match, which
+       PolicySizes uses on key lists of thousands of keys, equal the
+       recursive ones
      - Addr(p) = Addr(p with any subset of children made opaque)
      - an opaque policy is never satisfied; if p can be satisfied, p with one
        revealed child hidden cannot be satisfied by anything
@@ -21,7 +24,7 @@
    The policies are laid out as a sequence; a run checks the single-leaf
    policies and every Stride-th of the others, starting at number Offset.  From the root state TLC branches into one
    state per chunk of items and walks each chunk (parallel, linear).        *)
-EXTENDS Policy, Json, SequencesExt
+EXTENDS Policy, Json
 
 CONSTANTS Fam,        \* "leaf", "uc", "d1", "d2", "d3", "all", or "num" (parameters at the extremes of their machine types)
           Wide,       \* 0: narrow child pools, 1: wide child pools
@@ -122,6 +125,9 @@ LastOf(c) == IF c * ChunkSize < NItems THEN c * ChunkSize ELSE NItems
 AcceptM(p, c)  == LET d == Demands(p, c) IN {w \in W : MeaningD(p, c, d, SigOf(w), PreOf(w), UCInjection)}
 AcceptG(p, c)  == LET d == Demands(p, c) IN {w \in W : MeaningD(p, c, d, SigOf(w), PreOf(w), UCGreedy)}
 AcceptA(p, c)  == {w \in W : VerifyAlg(p, c, SigOf(w), PreOf(w))}
+\* the fold forms of the key walk and of the earliest match (used at size by PolicySizes)
+AcceptAF(p, c) == {w \in W : VerifyAlgF(p, c, SigOf(w), PreOf(w))}
+AcceptMF(p, c) == LET d == Demands(p, c) IN {w \in W : MeaningD(p, c, d, SigOf(w), PreOf(w), UCFold)}
 RECURSIVE RowSeq(_, _, _)
 RowSeq(p, cs, j) == IF j > Len(cs) THEN <<>>
                     ELSE <<[c |-> cs[j], acc |-> SetToSeq(AcceptM(p, Ctxs[cs[j]]))]>> \o RowSeq(p, cs, j + 1)
@@ -144,6 +150,7 @@ Design(p, cs, rows) ==
        /\ NeverByClass(p) => acc = {}
        /\ AlwaysByClass(p) => acc = {w \in W : SigOf(w) = <<>> /\ PreOf(w) = <<>>}
        /\ p.k = "uc" => acc = AcceptG(p, c)                          \* earliest match = injection
+       /\ p.k = "uc" => acc = AcceptAF(p, c) /\ acc = AcceptMF(p, c)   \* loop forms = recursive forms
        /\ acc # {} => Satisfiable(p, c)
        /\ p.k = "opaque" => acc = {}                                 \* opaque is never satisfied
        /\ (p.k = "thresh" /\ Satisfiable(p, c)) =>
